@@ -1,3 +1,4 @@
+import Std.Data.HashSet
 import Driver.Proto
 import Driver.OpsH
 import Driver.NttH
@@ -56,20 +57,32 @@ def processLine (st : Stats) (lineNo : Nat) (line : String) : IO (Stats × Optio
     | [] => return ({ st with bad := st.bad + 1 }, some s!"BAD {lineNo} empty")
   | _ => return ({ st with bad := st.bad + 1 }, some s!"BAD {lineNo} no-arrow")
 
-partial def loop (h : IO.FS.Stream) (out : IO.FS.Stream) (st : Stats) (n : Nat) : IO Stats := do
+/-- at most this many non-OK lines are reported in full (the rest are only counted) -/
+def reportCap : Nat := 200
+
+partial def loop (h : IO.FS.Stream) (out : IO.FS.Stream) (st : Stats) (n : Nat)
+    (seen : Std.HashSet UInt64) (reported : Nat) : IO (Stats × Nat) := do
   let line ← h.getLine
-  if line.isEmpty then return st
+  if line.isEmpty then return (st, seen.size)
   let (st', msg) ← processLine st n line
-  if let some m := msg then out.putStrLn m
-  loop h out st' (n + 1)
+  let lhs := (line.splitOn " =>").headD ""
+  let seen := if st'.lines > st.lines then seen.insert (hash lhs) else seen
+  match msg with
+  | some m =>
+    if reported < reportCap then
+      out.putStrLn m
+      -- the full original line, for replay (the message above may be truncated)
+      out.putStrLn s!"FULL {n} {line.trimAscii.toString}"
+    loop h out st' (n + 1) seen (reported + 1)
+  | none => loop h out st' (n + 1) seen reported
 
 def main : IO UInt32 := do
   let stdin ← IO.getStdin
   let stdout ← IO.getStdout
-  let st ← loop stdin stdout {} 1
+  let (st, distinct) ← loop stdin stdout {} 1 {} 0
   for (k, n) in st.classes do
     stdout.putStrLn s!"CLASS {k} {n}"
-  stdout.putStrLn s!"SUMMARY lines={st.lines} ok={st.ok} modeldiff={st.modelDiff} specfail={st.specFail} bad={st.bad}"
+  stdout.putStrLn s!"SUMMARY lines={st.lines} ok={st.ok} modeldiff={st.modelDiff} specfail={st.specFail} bad={st.bad} distinct={distinct}"
   return (if st.modelDiff + st.specFail + st.bad = 0 then 0 else 1)
 
 end Driver
